@@ -40,6 +40,7 @@ import MosaikProofs.Sched.Taint
 import MosaikProofs.Properties.C01
 import MosaikProofs.Closure.AncTable
 import MosaikProofs.Build.RunConfig
+import MosaikProofs.Closure.Terminate
 namespace Mosaik.C07
 open Mosaik
 
@@ -333,6 +334,21 @@ theorem ancestor_table_is_minimum_built (ops : List Build.Op) (hv : Build.Valid 
     (∀ s t d, TrigPath (Build.build ops).sims s t d → ∃ e, lookupTI (out.getD t {}).trigAnc s = some e ∧ TI.le e d) :=
   anc_table_minimum _ orc (Build.built_shapedT (Build.build_builtOk ops {} Build.builtOk_empty hv))
     (Build.built_trigRange (Build.build_builtOk ops {} Build.builtOk_empty hv)) hU h
+
+/-- **`cache_triggering_ancestors` terminates** (every pop order): once its first loop (direct triggers) has succeeded, the worklist
+empties — there is an amount of fuel from which on the loop of the model ends in a state, without assertion.  Well-founded descent on
+the table of stored delays (`Closure/Terminate.lean`); hypotheses as for `ancestor_table_is_minimum` -/
+theorem ancestor_worklist_terminates (sims : List SimCfg) (orc : List Nat) (hS : ShapedT sims) (hR : TrigRange sims) (hU : UniformT sims)
+    {st0 : AncState} (h0 : ancInit sims = .ok st0) :
+    ∃ k, ∀ fuel, k ≤ fuel → ∃ st, ancLoop sims fuel st0 orc = .ok st :=
+  anc_worklist_terminates sims orc hS hR hU h0
+
+/-- … for every built scenario (`ShapedT`, `TrigRange` from the builder invariant; `UniformT` remains) -/
+theorem ancestor_worklist_terminates_built (ops : List Build.Op) (hv : Build.Valid {} ops) (orc : List Nat)
+    (hU : UniformT (Build.build ops).sims) {st0 : AncState} (h0 : ancInit (Build.build ops).sims = .ok st0) :
+    ∃ k, ∀ fuel, k ≤ fuel → ∃ st, ancLoop (Build.build ops).sims fuel st0 orc = .ok st :=
+  anc_worklist_terminates _ orc (Build.built_shapedT (Build.build_builtOk ops {} Build.builtOk_empty hv))
+    (Build.built_trigRange (Build.build_builtOk ops {} Build.builtOk_empty hv)) hU h0
 
 /-- **`World.run` hands the scheduler a configuration that satisfies `WFCfg`** - all nine hypotheses of the scheduler theorems
 (C01, C02, C05, C07, C09, C10, C16, C17), for every scenario built by valid calls whose trigger paths are uniform -/
